@@ -34,6 +34,28 @@ CHECKS = {
         "64-bit path only (MurmurHash64B/ARM not modelled).",
    technique="Lean 4 proof (hash_eq_reference, reads_in_bounds) + correspondence run",
    design="6/C14"),
+ "C10": dict(
+   text="Kernel-checked Lean theorems over an index-arithmetic model of RangeFields/IndividualFields/ParseFields/DefragmentFields: "
+        "the pieces handed to the key hash are exactly what cut selects (per range, selected fields joined by the delimiter) for "
+        "every line, delimiter and well-formed range list; two lines containing all selected fields get equal pieces iff their "
+        "selected fields are identical (so unselected bytes, incl. trailing empty fields, never matter and any selected difference "
+        "does); ParseFields accepts exactly the cut LIST grammar for every argument string; DefragmentFields yields sorted disjoint "
+        "ranges denoting the same field set and rejects exactly the overlapping lists. Tied to the code by exhaustive small-domain "
+        "differential runs with a pairwise property oracle and through dedupe -f.",
+   note="Trusted: Lean kernel + standard axioms; hand-written model tied by bounded differential execution under ASan; hash "
+        "collisions excepted (keys compared as piece sequences).",
+   technique="Lean 4 proof (range_eq_cut, pieces_iff_selected_equal, parse_matches_cut_grammar, defragment_*) + correspondence run",
+   design="6/C10"),
+ "C13": dict(
+   text="Kernel-checked Lean refinement theorem: every history of insert-if-absent/lookup operations on non-zero keys, from the freshly "
+        "constructed table, runs to completion (no probe diverges, 'table full' is never raised, through any number of in-place "
+        "doublings with wrap-around clusters) and returns exactly the answers of a finite map, values staying attached to keys; "
+        "doubling preserves contents. The model is tied to util::AutoProbing by op-by-op differential runs (answers, growth points, "
+        "final bucket layout) and the implementation's real bucket arrays are checked against the Lean invariant.",
+   note="Trusted: Lean kernel + standard axioms; zero-fill of the reallocated half (mremap/calloc) is assumed by the model; "
+        "hand-written model tied by bounded differential execution.",
+   technique="Lean 4 proof (history_refines via probing invariant + doubling loop invariant) + correspondence run",
+   design="6/C13"),
 }
 
 NOT_APPLICABLE = []
